@@ -1,6 +1,6 @@
 //go:build verif
 
-//verif:aux scanner for=trillian/migrillian/core
+//verif:aux scanner for=trillian/migrillian/core,trillian/integration
 
 package scanner
 
